@@ -46,6 +46,9 @@ RAW = {
     "nonstr_keys": "parameters:\n  1: a\n  true: b\n  ~: c\n  1.5: d\n  r: \"${1}${true}\"\n",
     "bom": "\ufeffparameters: {a: 1}\n",
     "crlf": "parameters:\r\n  a: 1\r\n",
+    "map_key_with_seq_key": "parameters:\n  ? {[1, 2]: 3}\n  : foo\n",
+    "map_key_with_map_key": "parameters:\n  a:\n    ? {{x: 1}: 3}\n    : foo\n  r: \"${a}\"\n",
+    "seq_key_nested": "parameters:\n  ? [[1, {a: [2]}], {b: 1}]\n  : foo\n",
     "ref_into_list": "parameters:\n  l: [1]\n  r: \"${l:0}\"\n  r2: \"${l:x:y}\"\n",
 }
 # loop shapes: every reference cycle must come back as an error, never recurse without bound
